@@ -931,6 +931,9 @@ class Engine:
         if isinstance(op, ast.Add) and ((isinstance(a, (list, tuple)) and isinstance(b, Opq)) or
                                         (isinstance(b, (list, tuple)) and isinstance(a, Opq))):
             return Opq(z3.Function("fn:concat", V, V, V)(self.to_v(a), self.to_v(b)))
+        if isinstance(op, ast.Mult) and isinstance(a, list) and len(a) == 1 and _is_z3(b) and z3.is_int(b):
+            # [x] * n: a list of n copies of x
+            return Opq(z3.Function("fn:repeat", V, z3.IntSort(), V)(self.to_v(a[0]), b))
         if (isinstance(op, (ast.BitOr, ast.BitAnd, ast.BitXor)) and (isinstance(a, Opq) or isinstance(b, Opq))) or \
                 (isinstance(op, ast.Sub) and isinstance(a, Opq) and isinstance(b, Opq) and self.cur is not None
                  and getattr(self.cur, "opaque_sub", False)):
@@ -1771,6 +1774,9 @@ class Engine:
             name = dotted_name(exc.func)
             if name is None:
                 raise Unsupported("raise of computed exception")
+            if name.split(".")[-1] not in EXC_PARENT and name.split(".")[0] in st.env:
+                # ``raise obj.method()``: the raised object is the value of the call
+                return self.ev(exc, st, fr, lambda v, s1: fr.on_raise(v if isinstance(v, Exc) else Exc("Any", v, origin="stmt"), s1))
             cls = name.split(".")[-1]
             # evaluate arguments that are plain names (e.g. MailboxKilled(self.killed_because))
             def cont(args, s1):
@@ -1812,6 +1818,14 @@ class Engine:
             if isinstance(t, ast.Subscript) and dotted_name(t.value) is not None and ("del:" + dotted_name(t.value)) in hooks:
                 h = hooks["del:" + dotted_name(t.value)]
                 return self.ev(t.slice, st, fr, lambda key, s1: k(h(self, s1, key, None, s)))
+            if isinstance(t, ast.Subscript) and isinstance(t.value, ast.Name) and isinstance(st.env.get(t.value.id), dict) \
+                    and isinstance(t.slice, ast.Constant) and isinstance(t.slice.value, str):
+                # ``del d["key"]`` on a literal dict held by value
+                d = dict(st.env[t.value.id])
+                if t.slice.value not in d:
+                    self.oblige("safety", "deleted key is present", st, z3.BoolVal(False), s)
+                d.pop(t.slice.value, None)
+                return self.assign(ast.Name(id=t.value.id, ctx=ast.Store()), d, st, fr, k, s)
         return k(st)
 
     def ex_Import(self, s, st, fr, k):
